@@ -23,7 +23,7 @@ BASE = dict(
     n_funcs=(1, 4), n_globals=(0, 4), main_stmts=(4, 10), func_stmts=(2, 6),
     expr_depth=3, stmt_depth=3, hostile=0.04, strings=0.5, logic_any=0.15,
     shrink=0.25, recursion=0.3, vla=0.4, while_loops=0.3, shadow=0.2, main_args=0.4,
-    const_fold_safe=True, time=False, unreachable=0.0, big_lits=0.0,
+    const_fold_safe=True, time=False, unreachable=0.0, big_lits=0.0, capture=0.5,
 )
 
 PROFILES = {
@@ -43,6 +43,7 @@ class ProgGen:
         self.funcs = []       # Func objects callable so far (DAG order: later ones first)
         self.gsc = {}
         self.marks = 0
+        self.bump = None
 
     # ------------------------------------------------------------- naming
     def name(self, p):
@@ -126,7 +127,7 @@ class ProgGen:
         return Bin('+', Bin('%', e, Lit(INT, m, keep=True)), Lit(INT, r.choice([m + 1, m + 10, 100]), keep=True))
 
     def callable_funcs(self, ret, flavors=('',)):
-        return [f for f in self.funcs if f.ret == ret and f.flavor in flavors and f.tag != 'rec']
+        return [f for f in self.funcs if f.ret == ret and f.flavor in flavors and f.tag not in ('rec', 'bump')]
 
     def call_args(self, f, sc, d):
         args = []
@@ -206,6 +207,9 @@ class ProgGen:
             av = Var(n, v.t)
             return Index(av, self.index_for(sc, d - 1, Len(av), v.length))
         if t == INT:
+            if c < 0.38 and self.cfg['strings'] and r.random() < 0.35:
+                # .length of a computed string (call result, element, literal), not just of a variable
+                return Len(self.expr(STRING, sc, d - 1))
             if c < 0.38:
                 any_arr = self.arr_src(sc)
                 ss = self.vars_of(sc, lambda v: v.t == STRING)
@@ -276,11 +280,16 @@ class ProgGen:
         out.append(ExprStmt(Call('write', [Lit(BYTE, 32)])))
         return out
 
-    def decl_scalar(self, sc):
+    def decl_scalar(self, sc, allow_shadow=False):
         r = self.r
         ts = [INT, INT, BYTE, BOOL] + ([STRING] if self.chance('strings') else [])
         t = r.choice(ts)
         nm = self.name('v')
+        if allow_shadow and self.chance("shadow"):
+            # a local may shadow a global (never another local)
+            gs = [n for n, v in sc.items() if v.glob and not A.is_arr(v.t) and n[0] == 'g' and n[1:].isdigit()]
+            if gs:
+                nm = r.choice(gs)
         const = r.random() < 0.12
         init = self.coerced(t, sc, self.cfg['expr_depth'])
         cv = None
@@ -368,7 +377,7 @@ class ProgGen:
         return self.divisor(sc, 2) if op in '/%' else self.expr(self.num_t(), sc, 2)
 
     def call_stmt(self, sc, d, flavors=('',)):
-        fs = self.callable_funcs(EMPTY, flavors) or [f for f in self.funcs if f.flavor in flavors and f.tag != 'rec']
+        fs = self.callable_funcs(EMPTY, flavors) or [f for f in self.funcs if f.flavor in flavors and f.tag not in ('rec', 'bump')]
         if not fs:
             return []
         f = self.r.choice(fs)
@@ -380,7 +389,7 @@ class ProgGen:
     def counted_loop(self, sc, d, ctx):
         r = self.r
         n = r.randint(1, 4)
-        ctx2 = dict(ctx, in_loop=True)
+        ctx2 = dict(ctx, in_loop=True, nested=True)
         if self.chance('while_loops'):
             k = self.name('k')
             sc2 = dict(sc)
@@ -402,7 +411,7 @@ class ProgGen:
         for _ in range(n):
             c = r.random()
             if c < 0.13:
-                out.append(self.decl_scalar(sc))
+                out.append(self.decl_scalar(sc, ctx.get("nested", False)))
             elif c < 0.22:
                 out.extend(self.decl_array(sc))
             elif c < 0.25:
@@ -412,12 +421,12 @@ class ProgGen:
             elif c < 0.66:
                 out.extend(self.write_stmt(sc, ed))
             elif c < 0.75 and d > 0:
-                out.append(If(self.expr(BOOL, sc, ed), self.stmts(sc, r.randint(1, 3), d - 1, ctx),
-                              self.stmts(sc, r.randint(1, 2), d - 1, ctx) if r.random() < 0.5 else None))
+                out.append(If(self.expr(BOOL, sc, ed), self.stmts(sc, r.randint(1, 3), d - 1, dict(ctx, nested=True)),
+                              self.stmts(sc, r.randint(1, 2), d - 1, dict(ctx, nested=True)) if r.random() < 0.5 else None))
             elif c < 0.83 and d > 0:
                 out.extend(self.counted_loop(sc, d, ctx))
             elif c < 0.86 and d > 0:
-                out.append(Block(self.stmts(sc, r.randint(1, 3), d - 1, ctx)))
+                out.append(Block(self.stmts(sc, r.randint(1, 3), d - 1, dict(ctx, nested=True))))
             elif c < 0.90 and ctx.get('in_loop'):
                 if r.random() < 0.5:
                     out.append(If(self.expr(BOOL, sc, 2), [r.choice([Break, Continue])()]))
@@ -428,8 +437,58 @@ class ProgGen:
             elif c < 0.93 and ctx.get('ret', 'no') != 'no' and d < self.cfg['stmt_depth']:
                 rt = ctx['ret']
                 out.append(If(self.expr(BOOL, sc, 2), [Ret(self.coerced(rt, sc, 2) if rt != EMPTY else None)]))
+            elif c < 0.965 and self.bump is not None and 'gi' in sc and sc['gi'].glob:
+                out.extend(self.capture_stmts(sc))
             else:
                 out.extend(self.call_stmt(sc, 2))
+        return out
+
+    def capture_stmts(self, sc):
+        """value-capture discipline: a mutable global is read (as index, operand, argument, element) and a
+        later-evaluated call in the same statement changes it; the earlier read must have been captured"""
+        r = self.r
+        gi = Var('gi', INT)
+        bump = self.bump
+        arrs = [(n, v) for n, v in sc.items() if A.is_arr(v.t) and not v.t.const and v.length and v.t.el in (INT, BYTE, BOOL)]
+        out = []
+        W = lambda e: ExprStmt(Call('write', [e]))      # noqa: E731
+        sp = ExprStmt(Call('write', [Lit(BYTE, 32)]))
+        c = r.random()
+        if arrs and c < 0.55:
+            n, v = r.choice(arrs)
+            av = Var(n, v.t)
+            k = r.randrange(v.length)
+            to = r.choice([v.length + 2, v.length, (k + 1) % v.length, -1])
+            call = Call(bump, [Lit(INT, to)])
+            rhs = {INT: call, BYTE: Cast(call, BYTE), BOOL: Bin('>', call, Lit(INT, 0))}[v.t.el]
+            out.append(Assign(gi, Lit(INT, k)))
+            kind = r.random()
+            if kind < 0.5 or v.t.el == BOOL:
+                out.append(Assign(Index(av, gi), rhs))
+            elif kind < 0.8:
+                out.append(OpAssign(Index(av, gi), r.choice(['+', '-', '*']), call if v.t.el == INT else Cast(call, BYTE)))
+            else:
+                out.append(Assign(Index(av, Bin('%', Call(bump, [Lit(INT, k)]), Lit(INT, v.length, keep=True))), {INT: gi, BYTE: Cast(gi, BYTE), BOOL: Bin('==', gi, Lit(INT, k))}[v.t.el]))
+            shown = Index(av, Lit(INT, k))
+            out += [W(shown if v.t.el != BYTE else Cast(shown, INT)), sp]
+        else:
+            out.append(Assign(gi, Lit(INT, r.randint(0, 9))))
+            call = Call(bump, [Lit(INT, r.randint(10, 40))])
+            kind = r.random()
+            if kind < 0.3:
+                out.append(W(Bin(r.choice(['+', '-', '*']), gi, call)))
+            elif kind < 0.5:
+                out.append(W(Bin(r.choice(['<', '==', '>=']), gi, call)))
+            elif kind < 0.7:
+                out.append(W(Index(ArrLit([gi, call, gi], INT, True), Lit(INT, r.randrange(3)))))
+            elif kind < 0.85:
+                out.append(W(Bin('+', Bin('*', gi, Lit(INT, 2)), Bin('-', call, gi))))
+            else:
+                nm = self.name('cv')
+                out += [Decl(nm, INT, Bin('-', gi, call)), W(Var(nm, INT))]
+                sc[nm] = V(INT)
+            out.append(sp)
+        out += [W(gi), sp, Assign(gi, Lit(INT, 0))]
         return out
 
     # ----------------------------------------------------------- functions
@@ -445,7 +504,7 @@ class ProgGen:
                 t = r.choice([INT, INT, BYTE, BOOL] + ([STRING] if self.chance('strings') else []))
             pn = self.name('p')
             if gsc and self.chance('shadow') and not A.is_arr(t):
-                cand = r.choice(list(gsc))
+                cand = r.choice([g_ for g_ in gsc if g_ != 'gi'] or ['p_unused'])
                 if all(cand != q for q, _, _ in params):
                     pn = cand
             params.append((pn, t, False))
@@ -551,9 +610,19 @@ class ProgGen:
             return str(r.choice([0, 1, 65, 127, 128, 255, r.randint(0, 255)]))
         return r.choice(['', 'a', 'hello', 'x y', 'Zq9', 'hé'])
 
+    def add_capture_helpers(self, gl, gsc):
+        if not self.chance('capture'):
+            return
+        gl.append(Decl('gi', INT, Lit(INT, 0, keep=True)))
+        gsc['gi'] = V(INT, glob=True, frozen=True)
+        gi = Var('gi', INT)
+        self.bump = Func('bump', [('to', INT, False)], INT,
+                         [Decl('old', INT, gi), Assign(gi, Var('to', INT)), Ret(Bin('+', Var('old', INT), Lit(INT, 1)))], tag='bump')
+
     def program(self):
         r = self.r
         gl, gsc = self.globals_()
+        self.add_capture_helpers(gl, gsc)
         self.gsc = gsc
         lo, hi = self.cfg['n_funcs']
         nf = r.randint(lo, hi)
@@ -580,7 +649,7 @@ class ProgGen:
                     cn = r.choice(cands)
                     a.append(Var(cn, sc[cn].t))
                 main.body.append(ExprStmt(Call('writeln', [Call(f, a)])))
-        prog = Program(gl, [main] + list(self.funcs))
+        prog = Program(gl, [main] + list(self.funcs) + ([self.bump] if self.bump is not None else []))
         return prog, args
 
 
